@@ -26,7 +26,7 @@ func init() {
 		Directed:    c06Directed,
 		Run:         c06Run,
 		MustHit:     []string{"restrictions=0", "restrictions>=2", "empty_restriction", "near_miss", "match_then_miss", "miss_then_match", "otu", "proxy", "configured_empty", "forwarded_other_sp", "duplicate", "recompress", "clock_before_not_before", "clock_after_conditions_end"},
-		RandomRuns:  map[string]int{"quick": 1500, "thorough": 80000},
+		RandomRuns:  map[string]int{"quick": 8000, "thorough": 80000},
 		Assumptions: []string{"comparison of audience values is byte-exact, as the property states"},
 	})
 }
